@@ -289,6 +289,15 @@ func jsonType(v reflect.Value) (string, bool) {
 		// Not v.IsNil(): a nil []any is still a JSON array.
 		return "null", true
 	}
+	if v.Type() == jsonNumberType {
+		// A json.Number (from Decoder.UseNumber) has kind String but is a JSON number.
+		if r, ok := jsonNumber(v); ok {
+			if r.IsInt() {
+				return "integer", true
+			}
+			return "number", true
+		}
+	}
 	if v.CanInt() || v.CanUint() {
 		return "integer", true
 	}
@@ -311,6 +320,8 @@ func jsonType(v reflect.Value) (string, bool) {
 		return "", false
 	}
 }
+
+var jsonNumberType = reflect.TypeFor[json.Number]()
 
 func assert(cond bool, msg string) {
 	if !cond {
